@@ -11,7 +11,7 @@ checks_for() {
     c[0-9][0-9]-*) echo "C$(echo $1 | cut -c2-3)" ;;
     reintroduce-F1-*) echo C03 ;; reintroduce-F2-*) echo C04 ;; reintroduce-F3-*) echo C08 ;;
     reintroduce-F4-*) echo C02 ;; reintroduce-F5-*) echo C01 ;; reintroduce-F6-*) echo C19 ;;
-    reintroduce-F9-*) echo C14 ;; reintroduce-F10-*) echo C10 ;; reintroduce-F12-*) echo C01 ;;
+    reintroduce-F9-*) echo C10 ;; reintroduce-F10-*) echo C10 ;; reintroduce-F12-*) echo C01 ;;
     reintroduce-F13-*) echo C12 ;; reintroduce-F1[4-9]*) echo C06 ;; reintroduce-F20-*) echo C11 ;;
     reintroduce-F21-*|reintroduce-F22-*) echo C15 ;; reintroduce-F23) echo C16 ;;
     reintroduce-F2[4-9]|reintroduce-F30) echo C17 ;;
